@@ -229,6 +229,7 @@ PROPS = {
         "units": [
             rap("demux_corruption", "^TestC09Demux$", 250, 1500, 4, 16),
             rap("mux_sections", "^TestC09Mux$", 1500, 15000, 2, 16, tscale=10),
+            rap("odd_codes", "^TestC09OddCodes$", 1000, 10000, 2, 16),
         ],
     },
     "C02": {
@@ -340,7 +341,8 @@ PROPS = {
                       "deleted (decisions computed from the reference decode of every packet), its call log with the reference decode; the parser's "
                       "groups are compared with the per-PID payload packets of the model and the output with the data it returned",
         "level_note": "the PAT group is never replaced or refused by the harness' parser (the demuxer learns PMT PIDs from the PAT data passing through "
-                      "it); null/CAT noise is left out of the parser unit because identical null packets are legitimately dropped as duplicates",
+                      "it); null/CAT noise is left out of the parser unit because identical null packets are legitimately dropped as duplicates; finding K2 (parser data "
+                      "returned with skip=false is delivered for units without default output) is listed in KNOWN_FINDINGS.txt",
         "technique": "rapid metamorphic/differential testing (skipper vs pre-filtered stream; parser call log vs reference model)",
         "rule": "rapid-generated streams; non-trivial = predicate selects some but not all packets / >= 2 PIDs and a multi-packet unit; distinct by stream "
                 "bytes + decisions",
@@ -348,6 +350,7 @@ PROPS = {
         "units": [
             rap("skipper", "^TestC19Skipper$", 1500, 15000, 4, 16),
             rap("parser", "^TestC19Parser$", 1500, 15000, 4, 16),
+            det("known_finding_probe", "^TestC19KnownK2$"),
         ],
     },
     "C20": {
